@@ -15,7 +15,20 @@ MIB = 1 << 20
 TRACE_CFG = """CONSTANTS
   CacheSlots = 40
 SPECIFICATION TraceSpec
+INVARIANT Done
 POSTCONDITION TraceAccepted
+CHECK_DEADLOCK FALSE
+"""
+
+
+CACHE_CFG = """CONSTANTS
+  Clusters = {1, 2, 3}
+  Slots = 2
+  Readers = {"r1", "r2"}
+  MaxGets = 5
+  Counted = %s
+SPECIFICATION Spec
+INVARIANTS Bounded CacheHoldsCurrent ReadsOwnCluster NoLeak
 CHECK_DEADLOCK FALSE
 """
 
@@ -61,18 +74,26 @@ def build_packs(binary, base, tier):
     return out
 
 
-def make_conc(rng, k, pack, nthreads, reads_per_thread, delay, trace):
+def make_conc(rng, k, pack, nthreads, reads_per_thread, delay, trace, stampede=False, rounds=1):
     ops = pack["ops"]
     n = len(ops)
     hot = [rng.randrange(n) for _ in range(4)]          # contents every thread hits
     threads = []
     for t in range(nthreads):
+        if stampede and threads:
+            # every thread performs the same reads in the same order: they arrive together on each cluster that
+            # has never been read (first access, or first access after eviction from the cache)
+            threads.append([dict(r) for r in threads[0]])
+            continue
         rs = []
         for _ in range(reads_per_thread):
-            i = rng.choice(hot) if rng.random() < 0.3 else rng.randrange(n)
+            i = rng.choice(hot) if (rng.random() < 0.3 and not stampede) else rng.randrange(n)
             o = ops[i]
             size = o["size"]
-            if size == 0 or rng.random() < 0.4:
+            if stampede and size > 70000:
+                off = rng.randrange(0, size - 65536)
+                ln = rng.randrange(0, 65536)
+            elif size == 0 or rng.random() < 0.4:
                 off, ln = 0, size
             else:
                 off = rng.randrange(0, size)
@@ -81,7 +102,7 @@ def make_conc(rng, k, pack, nthreads, reads_per_thread, delay, trace):
                        "mode": rng.choice(["slice", "stream", "exact", "chunks"])})
         threads.append(rs)
     return {"kind": "conc", "id": "q%d" % k, "file": pack["file"], "seed": rng.randrange(1, 1 << 40), "delay_max_us": delay,
-            "trace_hooks": trace, "threads": threads, "pack": pack["name"], "nthreads": nthreads}
+            "trace_hooks": trace, "threads": threads, "pack": pack["name"], "nthreads": nthreads, "barrier": bool(stampede), "rounds": rounds}
 
 
 def run(prop, tier):
@@ -89,6 +110,14 @@ def run(prop, tier):
     rng = random.Random(C.SEED * 2038074743 + 7)
     binary = C.build("debug", hooked=True)
     grid = [(3, 3, 1)] if tier == "quick" else [(3, 3, 1), (3, 3, 2), (2, 4, 2)]
+    for counted in (True, False):
+        r = C.tlc("ClusterCache", CACHE_CFG % ("TRUE" if counted else "FALSE"), "MC_ClusterCache_%s" % counted, timeout=1200)
+        if counted:
+            rep.add_tlc(r, "MC_ClusterCache clusters=3 slots=2 readers=2 gets<=%d (eviction while held)" % (5 if tier == "quick" else 7))
+            if not r["ok"]:
+                rep.violation("design: ClusterCache violates %s" % r["violated"], {"tlc": r.get("out", "")[-3000:]})
+        elif r["ok"] or "ReadsOwnCluster" not in str(r["violated"]):
+            raise C.ToolError("ClusterCache with Counted = FALSE should violate ReadsOwnCluster: %s" % r["violated"])
     for readers, total, maxreq in grid:
         r = C.tlc("Decoder", mc_cfg(readers, total, maxreq), "MC_Decoder_%d_%d_%d" % (readers, total, maxreq), timeout=3000)
         rep.add_tlc(r, "MC_Decoder readers=%d chunks=%d requests=%d (safety + liveness)" % (readers, total, maxreq))
@@ -113,6 +142,8 @@ def run(prop, tier):
             scns.append(make_conc(rng, k, packs[0], nt, 40, rng.choice([0, 50, 300]), True))
     k += 1
     scns.append(make_conc(rng, k, packs[2], 4, 6, 100, True))
+    k += 1
+    scns.append(make_conc(rng, k, packs[1], 8, 14, 0, True, stampede=True))
     # stress runs (bytes + termination; hooks are schedule points only)
     nseeds = 200 if tier == "quick" else 5000
     for i in range(nseeds):
@@ -120,7 +151,11 @@ def run(prop, tier):
         pack = packs[i % 3] if i % 10 else packs[1]
         nt = [2, 8, 16, 32][i % 4]
         rp = 30 if pack["name"] == "packA" else 3
-        scns.append(make_conc(rng, k, pack, nt, rp, rng.choice([0, 0, 20, 200]), False))
+        if i % 3 == 1:
+            # simultaneous first accesses: small cluster headers (pack B), so that the threads leave the cache lock together
+            scns.append(make_conc(rng, k, packs[1], [4, 8, 16][(i // 3) % 3], 14, 0, False, stampede=True, rounds=4))
+        else:
+            scns.append(make_conc(rng, k, pack, nt, rp, rng.choice([0, 0, 20, 200]), False))
     events, n_ok = [], 0
     nontrivial = set()
     hangs = 0
@@ -129,7 +164,13 @@ def run(prop, tier):
             C.log("[%s] %d runs did not terminate: stopping early, the verdict is reached" % (prop, hangs))
             break
         chunk = scns[i:i + 30]
-        runs = C.run_scenarios(binary, chunk, "C07_b%d" % i, timeout=120, max_failures=3)
+        runs = C.run_scenarios(binary, chunk, "C07_b%d" % i, timeout=300, max_failures=3, env_extra={"VERIF_SCN_TIMEOUT": "60"})
+        # a run that did not finish is run again alone, with a generous bound, before it is called a hang
+        for s in chunk:
+            if runs.get(s["id"], {}).get("status") == "timeout":
+                again = C.run_scenarios(binary, [s], "C07_alone", timeout=180)
+                if again.get(s["id"], {}).get("status") == "ok":
+                    runs[s["id"]] = again[s["id"]]
         for s in chunk:
             r = runs.get(s["id"], {"events": [], "status": "crash:notrun"})
             sid = s["id"]
@@ -167,7 +208,9 @@ def run(prop, tier):
     rep.cov["distinct_nontrivial"] = len(nontrivial)
     rep.cov["rule"] = ("runs = N in {2,8,16,32} reader threads over one opened pack: A (45 compressed clusters of 4095 blobs: more clusters than the 40 cache slots), "
                        "B (14-44 lz4 clusters of > 500 chunks: more decoding at once than the 8 pool threads), C (lzma, raw and compressed mixed); same and different contents, "
-                       "whole and partial ranges, get_slice / stream / read_exact / odd-sized reads; every hook is a seeded schedule point (yield / sleep); distinct = different "
+                       "whole and partial ranges, get_slice / stream / read_exact / odd-sized reads; every hook is a seeded schedule point (yield / sleep); one run in three is a stampede on pack B: all threads make the same reads, released together by a "
+                       "barrier before each, over a pack opened 4 times (simultaneous first accesses to a cluster nobody has read: the decoder is created exactly once); in traced runs the "
+                       "CacheGet hook is compared with the LRU model (Lru.tla); distinct = different "
                        "(pack, thread count, seed); all non-trivial (>= 2 threads)")
     rep.assumptions += ["schedules of the real code are sampled (seeded), the protocol is exhaustive in Decoder.tla", "memory errors are reached only through the protocol "
                         "invariant (readers below `published`, writer above, no reallocation); no memory-safety tool is part of this technique"]
